@@ -1109,7 +1109,7 @@ def run_twin(hist, events, cfg_over=None):
     return run_history(th, use_known=False)
 
 
-def compare_checkpoints(w, tw, prop, oracle, grads="reach", skip_handles=(), what="twin"):
+def compare_checkpoints(w, tw, prop, oracle, grads="reach", skip_handles=(), what="twin", skip_grad_handles=()):
     """bit-identical values (and gradients) at every backward checkpoint of the two executions"""
     a, b = w.checkpoints, tw.checkpoints
     if len(a) != len(b):
@@ -1129,6 +1129,8 @@ def compare_checkpoints(w, tw, prop, oracle, grads="reach", skip_handles=(), wha
             if grads == "none":
                 continue
             if grads == "reach" and not (h in ca["reach"] and h in cb["reach"]):
+                continue
+            if h in skip_grad_handles:
                 continue
             if sa[3] != sb[3]:
                 ga = None if sa[3] is None else np.frombuffer(sa[3][0], dtype=sa[3][1]).tolist()
@@ -1211,7 +1213,7 @@ class C13(Prop):
             # removing a failing statement changed what another statement does: not comparable
             w.count("twin.incomparable")
             return
-        compare_checkpoints(w, tw, "C13", "C13.twin", what="failing-statements-removed")
+        compare_checkpoints(w, tw, "C13", "C13.twin", what="failing-statements-removed", skip_grad_handles=w.twin_skip_grad)
 
     def nontrivial(self, world):
         return world.probes.get("c13.failed_statement_checked", 0) > 0
